@@ -49,31 +49,73 @@ static Janet cfun_count(int32_t argc, Janet *argv) {
     if (!janet_checktype(argv[0], JANET_ABSTRACT)) janet_panic("abstract expected");
     return janet_wrap_integer(janet_abstract_head(janet_unwrap_abstract(argv[0]))->gc.data.refcount);
 }
-/* (rc/capi-take c): janet_channel_take on thread channel c from C; then a second OS thread (own VM) does janet_channel_give on
- * the same channel.  Returns [take-result give-completed]: if janet_channel_take returned with the channel mutex held, the
- * second thread blocks for ever (3 s hang detector). */
+/* A second OS thread (own VM) touches thread channel `p` through the C API (mode 0: janet_channel_give 7, mode 1: janet_channel_take).
+ * If the channel mutex was left locked by the thread under test, the second thread blocks for ever in pthread_mutex_lock.
+ * The verdict is logical, not a wall-clock limit: the helper is declared blocked only when the kernel reports it SLEEPING
+ * (state S in /proc/self/task/<tid>/stat: parked in the futex) on 40 consecutive samples after it entered the call;
+ * a thread that is merely starved on a loaded machine is runnable (state R) and is waited for. */
 #include <pthread.h>
 #include <unistd.h>
-static volatile int give_done;
-static void *give_thread(void *p) {
+#include <sys/syscall.h>
+static volatile int touch_done, touch_entered, touch_mode;
+static volatile long touch_tid;
+static void *touch_thread(void *p) {
+    touch_tid = (long) syscall(SYS_gettid);
     janet_init();
-    janet_channel_give((JanetChannel *) p, janet_wrap_integer(7));
-    give_done = 1;
+    touch_entered = 1;
+    if (touch_mode == 0) {
+        janet_channel_give((JanetChannel *) p, janet_wrap_integer(7));
+    } else {
+        Janet out;
+        janet_channel_take((JanetChannel *) p, &out);
+    }
+    touch_done = 1;
     janet_deinit();
     return NULL;
 }
+static char thread_state(long tid) {
+    char path[64], buf[512];
+    snprintf(path, sizeof path, "/proc/self/task/%ld/stat", tid);
+    FILE *f = fopen(path, "r");
+    if (!f) return '?';
+    size_t n = fread(buf, 1, sizeof buf - 1, f);
+    fclose(f);
+    buf[n] = 0;
+    char *q = strrchr(buf, ')');
+    return (q && q[1] == ' ') ? q[2] : '?';
+}
+/* -> 1 if the other thread completed its channel operation, 0 if it is blocked */
+static int other_thread_touch(JanetChannel *ch, int mode) {
+    touch_done = 0; touch_entered = 0; touch_tid = 0; touch_mode = mode;
+    pthread_t t;
+    pthread_create(&t, NULL, touch_thread, ch);
+    pthread_detach(t);
+    int asleep = 0;
+    while (!touch_done) {
+        usleep(5000);
+        if (touch_entered && thread_state(touch_tid) == 'S') {
+            if (++asleep >= 40) break;
+        } else {
+            asleep = 0;
+        }
+    }
+    return touch_done;
+}
+/* (rc/capi-take c): janet_channel_take on thread channel c from C; then a second OS thread does janet_channel_give on the same
+ * channel.  Returns [take-result give-completed]. */
 static Janet cfun_capi_take(int32_t argc, Janet *argv) {
     janet_fixarity(argc, 1);
     JanetChannel *ch = janet_getchannel(argv, 0);
     Janet out;
     int r = janet_channel_take(ch, &out);
-    give_done = 0;
-    pthread_t t;
-    pthread_create(&t, NULL, give_thread, ch);
-    pthread_detach(t);
-    for (int i = 0; i < 300 && !give_done; i++) usleep(10000);
-    Janet tup[2] = {janet_wrap_integer(r), janet_wrap_boolean(give_done)};
+    int done = other_thread_touch(ch, 0);
+    Janet tup[2] = {janet_wrap_integer(r), janet_wrap_boolean(done)};
     return janet_wrap_tuple(janet_tuple_n(tup, 2));
+}
+/* (rc/other-thread-take c): a second OS thread does janet_channel_take on thread channel c; true if it completed */
+static Janet cfun_other_take(int32_t argc, Janet *argv) {
+    janet_fixarity(argc, 1);
+    return janet_wrap_boolean(other_thread_touch(janet_getchannel(argv, 0), 1));
 }
 /* (rc/capi-make-threaded n): janet_channel_make_threaded from C */
 static Janet cfun_capi_make(int32_t argc, Janet *argv) {
@@ -81,7 +123,7 @@ static Janet cfun_capi_make(int32_t argc, Janet *argv) {
     return janet_wrap_abstract(janet_channel_make_threaded((uint32_t) janet_getinteger(argv, 0)));
 }
 static const JanetReg cfuns[] = {
-    {"rc/capi-take", cfun_capi_take, NULL}, {"rc/capi-make-threaded", cfun_capi_make, NULL},
+    {"rc/capi-take", cfun_capi_take, NULL}, {"rc/other-thread-take", cfun_other_take, NULL}, {"rc/capi-make-threaded", cfun_capi_make, NULL},
     {"rc/probe", cfun_probe, NULL}, {"rc/watch", cfun_watch, NULL}, {"rc/count", cfun_count, NULL}, {NULL, NULL, NULL}
 };
 
